@@ -4,7 +4,11 @@
    `trkc_step`): the subscriber callbacks may raise.
 
    reachable_any nattrs st : st is the state after ANY history, whatever the subscribers did -- also after operations
-   that were left by the exception of a subscriber (Props/C13.v C13_invariants).
+   that were left by the exception of a subscriber (Props/C13.v C13_invariants).  A history may contain
+   `tracker.stream_is_ordered = False` (OpUnordered): from then on timestamps may arrive out of order and n_latest_tracks
+   must sort.  Only this direction is modelled: a table kept sorted so far satisfies everything unordered mode needs,
+   whereas switching an unordered tracker to ordered asserts an order that nobody enforced -- the first n of such a table
+   are not its newest, and C14 does not quantify over such a tracker.
 
    mlu tr = (mmsi, last_updated).  sp_top_n n all r (Spec/TrackerSpec.v): r has min(n, |all|) elements with pairwise
    different MMSIs, all of them in `all`, and no element of `all` left out has a later last_updated than one in r. *)
@@ -61,4 +65,22 @@ Example C14_nonvacuous_raising :
   map (@rc_exn Z) (snd run) = [None; None; None; Some (Py ValueError); None; None] /\
   map (@tr_mmsi Z) (trk_n_latest_tracks (fst run) 1) = [333] /\
   map (@tr_mmsi Z) (trk_n_latest_tracks (fst run) 3) = [222; 333].
+Proof. vm_compute. repeat split. Qed.
+
+(* non-vacuity: a tracker built ordered and switched to unordered.  Before the switch an older timestamp is rejected;
+   after it the same update is accepted, the table is no longer sorted (333 at 3, 111 at 1 ... 222 at 2 behind them), and
+   n_latest_tracks sorts: the newest first. *)
+Example C14_nonvacuous_switched_to_unordered :
+  let q := @trk_env_quiet Z in
+  let h := [(q, OpUpdate 0 (mkMsg 111 [MPresent (Some 1)]) (Some 1));
+            (q, OpUpdate 0 (mkMsg 333 [MPresent (Some 3)]) (Some 3));
+            (q, OpUpdate 0 (mkMsg 222 [MPresent (Some 2)]) (Some 2));
+            (q, OpUnordered);
+            (q, OpUpdate 0 (mkMsg 222 [MPresent (Some 2)]) (Some 2))] in
+  let run := trkc_run 1 (trk_init None true) h in
+  map (@rc_exn Z) (snd run) = [None; None; Some (Py ValueError); None; None] /\
+  t_ordered (fst run) = false /\
+  map (@tr_mmsi Z) (trk_tracks (fst run)) = [111; 333; 222] /\
+  map (@tr_mmsi Z) (trk_n_latest_tracks (fst run) 2) = [333; 222] /\
+  map (@tr_mmsi Z) (trk_n_latest_tracks (fst run) 5) = [333; 222; 111].
 Proof. vm_compute. repeat split. Qed.
